@@ -4,7 +4,7 @@
    admissible St p := 0 < bits St /\ 2 <= p <= tmax St          (p fits the element type; implied by p <= maxCardinality)
    in_range T y   :=  tmin T <= y <= tmax T                     (y is a value of the C type T) *)
 From Coq Require Import ZArith Bool.
-From C04 Require Import Model ProofsBase ProofsIntegral ProofsRings Redc ProofsMont ProofsExtended.
+From C04 Require Import Model ProofsBase ProofsIntegral ProofsRings Redc ProofsMont ProofsExtended ProofsDispatch.
 Local Open Scope Z_scope.
 
 (* ---- Modular<S, C>, integral storage (modular-integral.inl) ---- *)
@@ -41,18 +41,19 @@ Print Assumptions C04_integral_mOne_is_image_of_minus_one.
 Theorem C04_integral_init_convert_identity : forall St p, admissible St p -> forall e, 0 <= e < p -> mi_init_Integer St p e = e.
 Proof. exact mi_roundtrip_Integer. Qed.
 Print Assumptions C04_integral_init_convert_identity.
-(* remaining defects of the code (known findings): the unrestricted statements are false *)
+(* remaining defect of the code (known finding) and one piece of history: the unrestricted statements are false *)
 (* why unsigned sources of the storage width must not reach the generic signed body (they no longer do: fix-5) *)
 Theorem C04_integral_generic_signed_body_unsound_for_same_width_unsigned :
   exists St p y, admissible St p /\ in_range (unsigned_of St) y /\ ~ residue p y (mi_init_gen_s_int St p y).
 Proof. exact mi_init_gen_s_same_width_refuted. Qed.
 Print Assumptions C04_integral_generic_signed_body_unsound_for_same_width_unsigned.
 Theorem C04_integral_float_source_unrepresentable_modulus_refuted :
-  exists p y r, admissible i32 p /\ rnd 24 y = y /\ mi_init_float_s i32 p 24 y = Some r /\ ~ residue p y r.
+  exists p y r, admissible i64 p /\ rnd 53 y = y /\ mi_init_float_s i64 p (fwide 53) y = Some r /\ ~ residue p y r.
 Proof. exact mi_init_float_modulus_refuted. Qed.
 Print Assumptions C04_integral_float_source_unrepresentable_modulus_refuted.
 
-(* ---- convert: Caster<T, Element> (a static_cast) returns the stored integer whenever the target type holds it ---- *)
+(* ---- convert = Caster<T, Element> = static_cast: facts about the MODEL's cast / rounding only (the stored integer is returned whenever the
+        target type holds it); the convert bodies themselves are tied by the correspondence run, not by a theorem ---- *)
 Theorem C04_convert_native_exact : forall T e, wf T -> tmin T <= e <= tmax T -> conv_int T e = e.
 Proof. exact cast_id. Qed.
 Print Assumptions C04_convert_native_exact.
@@ -60,12 +61,12 @@ Theorem C04_convert_floating_exact : forall prec e, 0 < prec -> Z.abs e < 2 ^ pr
 Proof. exact rnd_exact. Qed.
 Print Assumptions C04_convert_floating_exact.
 
-(* ---- Modular<float|double, C> (modular-floating.inl) ---- *)
-Theorem C04_floating_every_source : forall prec p, 0 < prec -> 2 <= p < 2 ^ prec -> forall s a,
+(* ---- Modular<float|double, C> (modular-floating.inl); p = 2^prec is maxCardinality of Modular<float,double> and is included ---- *)
+Theorem C04_floating_every_source : forall prec p, 0 < prec -> 2 <= p <= 2 ^ prec -> forall s a,
   mf_src_ok prec p s a -> exists r, mf_init prec p s a = Some r /\ residue p a r.
 Proof. exact mf_init_correct. Qed.
 Print Assumptions C04_floating_every_source.
-Theorem C04_floating_mOne : forall prec p, 0 < prec -> 2 <= p < 2 ^ prec -> residue p (-1) (mf_mone prec p).
+Theorem C04_floating_mOne : forall prec p, 0 < prec -> 2 <= p <= 2 ^ prec -> residue p (-1) (mf_mone prec p).
 Proof. exact mf_mone_correct. Qed.
 Print Assumptions C04_floating_mOne.
 
@@ -78,6 +79,7 @@ Theorem C04_balanced_integral_every_source : forall p, 3 <= p -> forall b s y,
   0 < b -> p <= tmax (Ity b true) -> bi_src_ok b s y -> exists r, bi_init p b s y = Some r /\ balanced p y r.
 Proof. exact bi_init_correct. Qed.
 Print Assumptions C04_balanced_integral_every_source.
+(* (a fact about the numbers 0, 1, -1 and the balanced window: the constructors store the literals 0, 1, -1) *)
 Theorem C04_balanced_constants : forall p, 3 <= p -> balanced p 0 0 /\ balanced p 1 1 /\ balanced p (-1) (-1).
 Proof. exact bal_constants. Qed.
 Print Assumptions C04_balanced_constants.
@@ -94,6 +96,11 @@ Theorem C04_ruint_native_integer_source : forall K p, 6 <= K -> 2 <= p < 2 ^ (2 
   in_range T a -> - 2 ^ 63 < a < 2 ^ 64 -> (sg T = true -> a < 2 ^ 63) -> exists r, ru_init K p (SI T) a = Some r /\ residue p a r.
 Proof. exact ru_init_int_correct. Qed.
 Print Assumptions C04_ruint_native_integer_source.
+
+Theorem C04_ruint_floating_source_every_value : forall K p, 6 <= K -> 2 <= p < 2 ^ (2 ^ K) -> forall prec a,
+  exists r, ru_init K p (SF prec) a = Some r /\ residue p a r.
+Proof. exact ru_init_float_correct. Qed.
+Print Assumptions C04_ruint_floating_source_every_value.
 
 (* ---- table rings: the index looked up in pol2log / _tab_value2rep is x mod q ---- *)
 Theorem C04_gfq_Integer_source_every_integer : forall q, 2 <= q -> forall b x, gf_init b q SInteger x = Some (x mod q).
@@ -163,6 +170,10 @@ Theorem C04_montgomery_to_from_identity : forall p, 3 <= p <= 40503 -> Z.odd p =
   0 <= mg_to p r < p /\ mg_lift p (mg_to p r) = r.
 Proof. exact mg_roundtrip. Qed.
 Print Assumptions C04_montgomery_to_from_identity.
+Theorem C04_montgomery_from_to_identity : forall p, 3 <= p <= 40503 -> Z.odd p = true -> forall e, 0 <= e < p ->
+  0 <= mg_lift p e < p /\ mg_to p (mg_lift p e) = e.
+Proof. exact mg_from_to. Qed.
+Print Assumptions C04_montgomery_from_to_identity.
 Theorem C04_montgomery_image_value : forall p, 3 <= p <= 40503 -> Z.odd p = true -> forall r, 0 <= r < p -> mg_to p r = (r * 65536) mod p.
 Proof. exact mg_to_value. Qed.
 Print Assumptions C04_montgomery_image_value.
@@ -174,3 +185,21 @@ Theorem C04_montgomery_constants : forall p, 3 <= p <= 40503 -> Z.odd p = true -
   mg_lift p (mg_one p) = 1 /\ residue p (-1) (mg_lift p (mg_mone p)).
 Proof. exact mg_constants. Qed.
 Print Assumptions C04_montgomery_constants.
+
+(* ---- the top-level dispatch: which body a call F.init(e, (T)x) resolves to, per ring family (Model.init / mi_init follow the enable_if
+        conditions of modular-integral.h, which checks/C04.py reads from /repo on every run, and the overload sets of the other headers).
+        ring_ok R m : the modulus is admissible for the family;  src_ok R m s x : x is a value of source type s inside the claim (every value of
+        every native type of at most 64 bits [INT64_MIN into unsigned 64-bit storage excepted], every Integer, every integer-valued float /
+        double [integral storage: when the modulus is a double], long long, ruint values the element holds; see ProofsDispatch.v);
+        image_ok R m x r : r is canonical and its lift is congruent to x (balanced window / Montgomery image / table index x mod q). ---- *)
+Theorem C04_integral_dispatch_every_source : forall St p s y, admissible St p -> bits St <= 64 -> mi_src_ok St p s y ->
+  exists r, mi_init St p s y = Some r /\ residue p y r.
+Proof. exact mi_init_dispatch_correct. Qed.
+Print Assumptions C04_integral_dispatch_every_source.
+Theorem C04_every_family_every_source : forall R s m x, ring_ok R m -> src_ok R m s x -> exists r, init R s m x = Some r /\ image_ok R m x r.
+Proof. exact init_dispatch_correct. Qed.
+Print Assumptions C04_every_family_every_source.
+(* init(convert(e)) = e for EVERY family (convert<Integer> = lift; uniqueness of the canonical representative) *)
+Theorem C04_init_convert_identity_every_family : forall R m e, ring_ok R m -> canonical R m e -> init R SInteger m (lift R m e) = Some e.
+Proof. exact init_convert_identity. Qed.
+Print Assumptions C04_init_convert_identity_every_family.
